@@ -60,6 +60,10 @@ def run(ctx):
     from . import c16
 
     c16.per_class(ctx.renamed("R15.6"))
+    ctx.rule("R15.7", "isometry invariance of assembled paths: linked end points are copies, so an in-place transform maps every point once (obligations shared with C18 R18.1)")
+    from . import c18
+
+    c18.linked_points_are_copies(ctx, "R15.7")
     subdivision(ctx)
     n = cachecoh.check(ctx, "R15.5")
     ctx.need(n >= 8, "R15.5", "too few mutating methods recognised (%d)" % n)
